@@ -1,4 +1,4 @@
-import Adlt.Sort.Spec
+import Adlt.Sort.Seq
 import Adlt.Util.Parse
 /-! glue. case: `window minDelay | id:start id:start … | idx,recv,ecu,lc,tsUs,ctrl;…`  obs: output index sequence -/
 namespace Srt
@@ -26,33 +26,26 @@ def parseCase (line : String) : Case :=
 /-- rebuild the observed output sequence from the observed (position-in-input) sequence -/
 def outOf (c : Case) (obs : String) : Option (List SMsg) :=
   let ps := nats obs " "
-  if ps.any (· ≥ c.ms.length) then none else some (ps.filterMap fun p => c.ms[p]?)
+  if ps.any (· ≥ c.ms.length) then none else some (ps.filterMap fun p => (number 0 c.ms)[p]?)
 
 def oracleOn (c : Case) (obs : String) : String :=
   if obs == "PANIC" then "C10=FAIL:panic" else
   match outOf c obs with
   | none => "C10=FAIL:unknown-message"
   | some out =>
-    if !Spec.isPermIdx c.ms out then "C10=FAIL:not-a-permutation"
-    else if Spec.orderingInRange c.table c.minDelay c.ms && !Spec.sortedByCalc c.table out then "C10=FAIL:not-sorted-within-bound"
+    if !Spec.isPermIdx (number 0 c.ms) out then "C10=FAIL:not-a-permutation"
+    else if Spec.premise c.table c.minDelay c.ms && !Spec.sortedByCalc c.table out then "C10=FAIL:not-sorted-within-bound"
     else "C10=ok"
 
 def modelObs (c : Case) : String :=
-  let out := runSort c.table c.window c.minDelay c.ms
-  -- positions in the input (messages are distinguished by position, indices may repeat)
-  let rec pos (inp : List (SMsg × Nat)) (used : List Nat) : List SMsg → List Nat
-    | [] => []
-    | m :: t =>
-      match inp.find? (fun (x, p) => x == m && !used.contains p) with
-      | some (_, p) => p :: pos inp (p :: used) t
-      | none => 999999 :: pos inp used t
-  " ".intercalate ((pos c.ms.zipIdx [] out).map toString)
+  -- positions in the input = the arrival numbers
+  " ".intercalate ((runSortSeq c.table c.window c.minDelay c.ms).map fun m => toString m.seq)
 
 /-- `BinaryHeap` leaves the order of entries with equal (calculated time, index) unspecified: sort each
     maximal run of adjacent positions with equal key by position before comparing model and implementation -/
 def canonTies (c : Case) (ps : List Nat) : List Nat :=
   let key (p : Nat) : Nat × Nat := match c.ms[p]? with
-    | some m => (calcTime c.table m, m.index)
+    | some _ => (p, 0)   -- no ties: the arrival number breaks them
     | none => (0, 0)
   let rec go (cur : List Nat) : List Nat → List Nat
     | [] => (cur.toArray.qsort (· < ·)).toList
@@ -66,10 +59,11 @@ def canonObs (c : Case) (obs : String) : String :=
   if obs == "PANIC" then obs else " ".intercalate ((canonTies c (nats obs " ")).map toString)
 
 def branches (c : Case) : String :=
-  let out := runSort c.table c.window c.minDelay c.ms
+  let out := (runSortSeq c.table c.window c.minDelay c.ms).map SMsg.clearSeq
   let tags : List String :=
     (if out != c.ms then ["reordered"] else []) ++
-    (if Spec.orderingInRange c.table c.minDelay c.ms then ["within-bound"] else ["outside-bound"]) ++
+    (if Spec.premise c.table c.minDelay c.ms then ["within-bound"] else ["outside-bound"]) ++
+    (if Spec.seqIncreasing (c.ms.map fun m => { m with seq := m.index }) then [] else ["indices-not-increasing"]) ++
     (if c.ms.any (·.ctrlReq) then ["ctrl"] else []) ++
     (if c.ms.any (fun m => (aGet m.lc c.table).isNone) then ["lc-missing"] else []) ++
     (if (firstSeen (c.ms.map (·.ecu))).length > 1 then ["multi-ecu"] else []) ++
